@@ -1,3 +1,4 @@
+\* (also the exhaustive check of the exact policy on this instance: all invariants listed)
 \* every behaviour of length 5 of a tiny instance (exact policy): 4 sequences, documents + one unused range, each event once
 CONSTANT W = 4
 CONSTANT MaxSteps = 5
@@ -5,6 +6,7 @@ CONSTANT MaxNums = {0, 1, 100}
 CONSTANT Olds = {FALSE}
 CONSTANT Kinds <- KDoc
 CONSTANT Ranges <- RSmall
+CONSTANT DocEvs = {}
 CONSTANT MaxDup = 1
 CONSTANT MaxRangeArr = 1
 CONSTANT Policy = "exact"
@@ -12,4 +14,20 @@ CONSTANT AllowAbandon = FALSE
 CONSTANT LegalOnly = FALSE
 SPECIFICATION Spec
 INVARIANT BehaviourExport
+INVARIANT Once
+INVARIANT Delivered
+INVARIANT InOrder
+INVARIANT HwmSound
+INVARIANT SkippedExact
+INVARIANT LateIsLate
+INVARIANT StableExposed
+INVARIANT OverdueSkipped
+INVARIANT PendingAhead
+INVARIANT RecvPending
+INVARIANT HcsBehind
+INVARIANT StarIsDelivered
+INVARIANT SkipCount
+INVARIANT SkippedBelow
+INVARIANT InOrderAll
+INVARIANT TypeOK
 CHECK_DEADLOCK FALSE
